@@ -28,7 +28,7 @@ from . import common
 
 SPEC = {
     "lean": ["SnowModel.Props.C07", "SnowModel.Props.C07Bridge"],
-    "pins": ["StopApi", "StopRuntime"],
+    "pins": ["StopApi", "StopRuntime", "StopTables"],
     "harness": "harness.c07",
     "technique": "Lean 4 theorems about the stopping loop over an arbitrary rows-per-iteration function "
     "(induction on the loop with a progress invariant) + pins of the stopping arithmetic, defaults, call order "
@@ -586,6 +586,280 @@ def check_misc(cases, rep):
             rep.disagreement("c07.run (%s)" % case["kind"], case, val, code)
 
 
+# ------------------------------------------------------------------ which tables can the recipe create? (macros, includes)
+#
+# Case "reach": {"macros": [macro…], "lib": None | {"macros": [macro…], "statements": [tmpl…]},
+#                "statements": [tmpl…], "target": name, "n": N}
+#   tmpl  = {"t": table, "inc": [macro names], "nested": [tmpl…], "friends": [tmpl…], "nick": name | None}
+#   macro = {"name": name, "inc": [macro names], "nested": [tmpl…], "friends": [tmpl…]}
+# "The recipe can create table X" = some template reachable from the top-level statements (of the main file
+# and of include_file'd files) through nested fields, friends and *included* macros has table X.  It is
+# computed here directly from the case (`reachable_tables`), independently of the Lean model.
+
+
+def _render_tmpl(t, ind, counter):
+    lines = [f"{ind}- object: {t['t']}"]
+    if t.get("nick"):
+        lines.append(f"{ind}  nickname: {t['nick']}")
+    lines += _render_body(t, ind + "  ", counter)
+    return lines
+
+
+def _render_body(t, ind, counter):
+    lines = []
+    if t.get("inc"):
+        lines.append(f"{ind}include: {', '.join(t['inc'])}")
+    if t.get("nested"):
+        lines.append(f"{ind}fields:")
+        for k in t["nested"]:
+            counter[0] += 1
+            lines.append(f"{ind}  f{counter[0]}:")
+            lines += _render_tmpl(k, ind + "    ", counter)
+    if t.get("friends"):
+        lines.append(f"{ind}friends:")
+        for k in t["friends"]:
+            lines += _render_tmpl(k, ind + "  ", counter)
+    return lines
+
+
+def _render_file(macros, statements, counter, include=None):
+    out = []
+    if include:
+        out.append(f"- include_file: {include}")
+    for m in macros:
+        out.append(f"- macro: {m['name']}")
+        body = _render_body(m, "  ", counter)
+        out += body if body else ["  fields:", f"    z{counter[0]}: 1"]
+    for t in statements:
+        out += _render_tmpl(t, "", counter)
+    return "\n".join(out) + "\n"
+
+
+def render_reach(case):
+    counter = [0]
+    files = None
+    if case.get("lib"):
+        files = {"lib.yml": _render_file(case["lib"]["macros"], case["lib"]["statements"], counter)}
+    return _render_file(case["macros"], case["statements"], counter, include="lib.yml" if files else None), files
+
+
+def reachable_tables(case):
+    """Tables of the templates reachable from the statements (declaration order of first reach)."""
+    macros = {}
+    for m in (case["lib"]["macros"] if case.get("lib") else []) + case["macros"]:
+        macros[m["name"]] = m
+    seen, expanding = [], []
+
+    def body(x):
+        for name in x.get("inc", []):
+            m = macros[name]
+            if name in expanding:
+                raise ValueError("macro cycle")
+            expanding.append(name)
+            body(m)
+            expanding.pop()
+        for k in x.get("nested", []) + x.get("friends", []):
+            tmpl(k)
+
+    def tmpl(t):
+        body(t)
+        if t["t"] not in seen:
+            seen.append(t["t"])
+
+    for t in (case["lib"]["statements"] if case.get("lib") else []) + case["statements"]:
+        tmpl(t)
+    return seen
+
+
+def _flat_tmpl(t):
+    return {"t": t["t"], "inc": t.get("inc", []), "kids": [_flat_tmpl(k) for k in t.get("nested", []) + t.get("friends", [])]}
+
+
+def reach_request(case):
+    lib = case.get("lib") or {"macros": [], "statements": []}
+    return {"m": "c07.tables", "fuel": 200,
+            "macros": [{"name": m["name"], "inc": m.get("inc", []),
+                        "kids": [_flat_tmpl(k) for k in m.get("nested", []) + m.get("friends", [])]}
+                       for m in lib["macros"] + case["macros"]],
+            "statements": [_flat_tmpl(t) for t in lib["statements"] + case["statements"]]}
+
+
+def _all_names(case):
+    """(tables occurring anywhere incl. unused macros, nicknames, macro names)"""
+    tabs, nicks, mnames = [], [], []
+
+    def walk(t):
+        tabs.append(t["t"])
+        if t.get("nick"):
+            nicks.append(t["nick"])
+        for k in t.get("nested", []) + t.get("friends", []):
+            walk(k)
+
+    lib = case.get("lib") or {"macros": [], "statements": []}
+    for m in lib["macros"] + case["macros"]:
+        mnames.append(m["name"])
+        for k in m.get("nested", []) + m.get("friends", []):
+            walk(k)
+    for t in lib["statements"] + case["statements"]:
+        walk(t)
+    return tabs, nicks, mnames
+
+
+def gen_reach_case(rng):
+    fresh = iter(["A", "B", "C", "D", "F", "K"])
+    ghosts = iter(["Ghost", "Ghost2", "Deep", "Ghost3"])
+
+    def leaf(name, depth=0, ghost=False):
+        t = {"t": name, "inc": [], "nested": [], "friends": []}
+        if depth < 1 and rng.random() < 0.35:
+            nm = next(ghosts if ghost else fresh, None)
+            if nm:
+                (t["nested"] if rng.random() < 0.5 else t["friends"]).append(leaf(nm, depth + 1, ghost))
+        return t
+
+    # macros that some reachable template includes
+    used = []
+    for i in range(rng.choice([0, 1, 1, 2])):
+        m = {"name": f"used{i}", "inc": [], "nested": [], "friends": []}
+        for _ in range(rng.choice([0, 1, 1, 2])):
+            nm = next(fresh, None)
+            if nm:
+                (m["nested"] if rng.random() < 0.5 else m["friends"]).append(leaf(nm, 0))
+        if i > 0 and rng.random() < 0.5:
+            m["inc"].append("used0")
+        used.append(m)
+    # macros nobody includes (possibly including each other / a used macro)
+    unused = []
+    for i in range(rng.choice([0, 1, 1, 2])):
+        m = {"name": f"spare{i}", "inc": [], "nested": [], "friends": []}
+        for _ in range(rng.choice([1, 1, 2])):
+            nm = next(ghosts, None)
+            if nm:
+                (m["nested"] if rng.random() < 0.5 else m["friends"]).append(leaf(nm, 0, ghost=True))
+        if rng.random() < 0.3:
+            m["friends"].append(leaf(T, 1))  # a table that also exists elsewhere
+        if i > 0 and rng.random() < 0.6:
+            m["inc"].append("spare0")
+        if used and rng.random() < 0.4:
+            m["inc"].append(rng.choice(used)["name"])
+        unused.append(m)
+    statements = [{"t": "M", "inc": [], "nested": [], "friends": []}]
+    main = leaf(T, 0)
+    main["nick"] = "nick"
+    statements.append(main)
+    hidden_used = rng.random() < 0.4
+    if hidden_used:
+        h = {"t": "__H", "inc": [], "nested": [], "friends": []}
+        if rng.random() < 0.5:
+            h["friends"].append(leaf("V", 1))
+        statements.append(h)
+    for _ in range(rng.choice([0, 1])):
+        nm = next(fresh, None)
+        if nm:
+            statements.append(leaf(nm, 0))
+    # every used macro is included by a reachable template (or by used1 -> used0)
+    holders = [s for s in statements if s["t"] != "M"]
+    for i, m in enumerate(used):
+        if i == 0 and len(used) > 1 and "used0" in used[1]["inc"] and rng.random() < 0.5:
+            continue
+        rng.choice(holders)["inc"].append(m["name"])
+    if len(used) > 1 and "used0" in used[1]["inc"] and not any("used1" in s["inc"] for s in holders):
+        holders[0]["inc"].append("used1")
+    statements.append({"t": "E", "inc": [], "nested": [], "friends": []})
+    lib = None
+    macros = used + unused
+    if rng.random() < 0.35:
+        # move some macros (and one statement) into an include_file'd library
+        lm = [m for m in macros if rng.random() < 0.5]
+        lib = {"macros": lm, "statements": [leaf("L", 1)] if rng.random() < 0.6 else []}
+        macros = [m for m in macros if m not in lm]
+        if not lib["macros"] and not lib["statements"]:
+            lib = None
+    if rng.random() < 0.15 and unused:
+        # a hidden table that exists only in an unused macro
+        unused[0]["friends"].append({"t": "__G", "inc": [], "nested": [], "friends": []})
+    rng.shuffle(macros)
+    case = {"kind": "reach", "macros": macros, "lib": lib, "statements": statements, "n": rng.choice([1, 2, 3])}
+    reach = reachable_tables(case)
+    tabs, nicks, mnames = _all_names(case)
+    pools = {
+        "created": [x for x in reach if not x.startswith("__")],
+        "unused-macro-only": [x for x in tabs if x not in reach and not x.startswith("__")],
+        "hidden": [x for x in tabs if x.startswith("__")],
+        "nickname": nicks,
+        "macro-name": mnames,
+        "nowhere": ["Nowhere", "t", "ghost"],
+    }
+    cats = [c for c, v in pools.items() if v]
+    cat = rng.choice(cats + (["unused-macro-only"] * 3 if pools["unused-macro-only"] else []))
+    case["target"] = rng.choice(pools[cat])
+    case["category"] = cat
+    return case
+
+
+def check_reach(cases, rep):
+    reqs, meta = [], []
+    for case in cases:
+        recipe, files = render_reach(case)
+        name, n = case["target"], case["n"]
+        res = guarded_run(recipe, 600, target=(name, n), files=files)
+        reach = reachable_tables(case)
+        can_create = name in reach
+        vis = not name.startswith("__")
+        rep.case(case, nontrivial=bool(case["macros"] or case.get("lib")))
+        rep.count("reach:target:" + case.get("category", "?"))
+        rep.count("reach:outcome:" + res.outcome)
+        if case.get("lib"):
+            rep.count("reach:include_file")
+        n_unused = sum(1 for m in case["macros"] + (case["lib"]["macros"] if case.get("lib") else [])
+                       if m["name"].startswith("spare"))
+        rep.count("reach:unused-macros:%d" % n_unused)
+        what = f"target table {name!r} ({case.get('category')})"
+        if not can_create:
+            if res.outcome in ("ok", "runaway") or res.rows:
+                rep.violation(SIG_NOTREJ,
+                              f"{what}: no template reachable from the recipe's statements creates it, but the run "
+                              f"was not rejected before the first row: outcome {res.outcome}, {len(res.rows)} rows written",
+                              dict(case, recipe=recipe), "a recipe error before any row is written",
+                              {"outcome": res.outcome, "rows": len(res.rows), "error": res.error})
+            elif res.outcome != "recipe_error":
+                rep.violation("C07:unknown-target-wrong-error",
+                              f"{what}: rejected, but not with a recipe error: {res.error}",
+                              dict(case, recipe=recipe), "recipe_error", res.outcome)
+        elif vis:
+            got = sum(1 for t, _ in res.rows if t == name)
+            if res.outcome != "ok":
+                rep.violation("C07:known-target-rejected",
+                              f"{what}: the recipe creates this table, yet the run failed: {res.error}",
+                              dict(case, recipe=recipe), "ok", {"outcome": res.outcome, "rows": len(res.rows)})
+            elif got < n:
+                rep.violation("C07:stopped-early", f"{what}: ended normally with {got} < {n} rows",
+                              dict(case, recipe=recipe), n, got)
+        else:
+            rep.count("reach:hidden-creatable-target (no claim)")
+        real_tables = list(res.tables.keys()) if getattr(res, "tables", None) is not None else None
+        reqs.append(reach_request(case))
+        meta.append((case, res, real_tables))
+    out = common.model_batch(reqs)
+    reqs2, meta2 = [], []
+    for (case, res, real_tables), (st, val) in zip(meta, out):
+        rep.traces_validated += 1
+        if st != "ok" or val[0] != "ok":
+            rep.disagreement("c07.tables", case, val, real_tables)
+            continue
+        if real_tables is not None and val[1] != real_tables:
+            rep.disagreement("c07.tables", case, val[1], real_tables)
+        reqs2.append({"m": "c07.run", "tables": val[1], "tname": case["target"], "count": case["n"], "cont": None,
+                      "r": [], "rdef": 1})
+        code = ["rejected"] if (res.outcome not in ("ok", "runaway") and not res.rows) else \
+            ["finished"] if res.outcome == "ok" else [res.outcome]
+        meta2.append((case, code))
+    for (case, code), (st, val) in zip(meta2, common.model_batch(reqs2)):
+        model = val[:1] if st == "ok" else ["err", val]
+        if model != code:
+            rep.disagreement("c07.run (reach)", case, val, code)
+
+
 # ------------------------------------------------------------------ entry points
 
 
@@ -599,6 +873,9 @@ def check_cases(cases, rep):
         check_e2e(e2e, rep)
     if misc:
         check_misc(misc, rep)
+    reach = [c for c in cases if c["kind"] == "reach"]
+    if reach:
+        check_reach(reach, rep)
 
 
 def fixed_cases():
@@ -630,6 +907,19 @@ def fixed_cases():
     for name in ("Q", "t", "nick", "v", "mac", "__H", "T ", "", "M", T):
         for continued in (False, True):
             cases.append({"kind": "reject", "target": name, "n": 2, "continued": continued})
+    # tables that exist only inside a macro nobody includes (friend / nested), in the main file or in a library
+    def tm(t, **kw):
+        return dict({"t": t, "inc": [], "nested": [], "friends": []}, **kw)
+
+    spare = {"name": "spare0", "inc": [], "nested": [tm("Deep")], "friends": [tm("Ghost")]}
+    used = {"name": "used0", "inc": [], "nested": [], "friends": [tm("F")]}
+    stm = [tm("M"), tm(T, inc=["used0"], nick="nick"), tm("__H", friends=[tm("V")]), tm("E")]
+    for lib in (None, {"macros": [spare], "statements": [tm("L")]}):
+        for target, cat in (("Ghost", "unused-macro-only"), ("Deep", "unused-macro-only"), ("F", "created"),
+                            ("V", "created"), (T, "created"), ("__H", "hidden"), ("nick", "nickname"),
+                            ("spare0", "macro-name"), ("Nowhere", "nowhere")):
+            cases.append({"kind": "reach", "macros": [used] if lib else [used, spare], "lib": lib,
+                          "statements": stm, "target": target, "n": 3, "category": cat})
     return cases
 
 
@@ -638,7 +928,10 @@ def run(ctx, rep, findings):
         "fn: (target name, N, continuation offset, row-count sequence) driven through the real application "
         "methods with a real IdManager; e2e: generated recipes (marker M/E, 1-4 templates feeding T: top-level, "
         "nested, friend, just_once, literal/formula/absent counts, dialect 2/3), target N in 1..3r+1, fresh or "
-        "continued after a first run (reps or target); reps/no-target; targets no template creates. "
+        "continued after a first run (reps or target); reps/no-target; targets no template creates; reach: recipes "
+        "with included and never-included macros (friends / nested templates of tables occurring nowhere else), "
+        "include_file'd macro libraries, hidden templates; targets drawn from created tables, tables only in unused "
+        "macros, hidden tables, nicknames, macro names, names occurring nowhere. "
         "Non-trivial: >= 2 boundaries or an error outcome. Distinct = distinct case hash."
     )
     cases = [f["input"] for f in findings if f.get("input")]
@@ -654,6 +947,15 @@ def run(ctx, rep, findings):
             rep.notes.append(f"stopped early after {done} generated end-to-end cases: time budget")
             break
         batch = [gen_e2e_case(ctx.rng) for _ in range(min(150, n_e2e - done))]
+        check_cases(batch, rep)
+        done += len(batch)
+    n_reach = ctx.scale(450, 5000)
+    done = 0
+    while done < n_reach:
+        if ctx.time_left() < 40:
+            rep.notes.append(f"stopped early after {done} generated reach cases: time budget")
+            break
+        batch = [gen_reach_case(ctx.rng) for _ in range(min(150, n_reach - done))]
         check_cases(batch, rep)
         done += len(batch)
     rep.extra["error_type_note"] = (
